@@ -1449,6 +1449,13 @@ class C18(WMode):
             # half of the time keep max_count at or below num_reserved (the grid of the statement
             # ranges over both independently): such a configuration must raise ValueError
             mc = nr + 2 + rng.randrange(0, 1000)
+        if rng.random() < 0.12:
+            # the corner of the grid where the log range shrinks to nothing: num_reserved within
+            # 3 of the counter maximum, max_count within 3 of num_reserved or of the maximum
+            nr = mx - rng.choice([1, 1, 2, 3])
+            mc = rng.choice([mx, mx + 1, nr + 1, nr + 2, nr + 3, mx + 2])
+            if mc < 300:
+                mc = rng.choice([300, 301, 1000])  # the statement's grid starts at max_count 300
         return {"op": "ctor", "fam": fam, "max_count": mc, "nr": nr, "factory": rng.random() < 0.3}
 
     def nontrivial(self, w):
